@@ -72,11 +72,12 @@ type Result struct {
 	Desc    string         `json:"desc,omitempty"`
 
 	// runner side
-	Crashed   bool   `json:"crashed,omitempty"`
-	CrashText string `json:"crash_text,omitempty"`
-	CrashSite string `json:"crash_site,omitempty"`
-	TimedOut  bool   `json:"timed_out,omitempty"`
-	job       *Job
+	Crashed       bool   `json:"crashed,omitempty"`
+	CrashText     string `json:"crash_text,omitempty"`
+	CrashSite     string `json:"crash_site,omitempty"`
+	TimedOut      bool   `json:"timed_out,omitempty"`
+	WatchdogRetry bool   `json:"-"` // the first attempt hit the watchdog, this is the result of the second
+	job           *Job
 }
 
 type worker struct {
@@ -225,6 +226,20 @@ func (p *Pool) Start() {
 					}
 				}
 				res, alive := p.runOn(w, job)
+				if res.TimedOut {
+					// a run that normally takes milliseconds did not finish within the real-time limit: once more in a
+					// fresh process (runs are deterministic - a stall that does not repeat was the machine's)
+					if w2, err := p.spawn(); err == nil {
+						res2, alive2 := p.runOn(w2, job)
+						if alive2 {
+							w2.close()
+						}
+						if !res2.TimedOut {
+							res2.WatchdogRetry = true
+							res = res2
+						}
+					}
+				}
 				w.jobs++
 				if !alive {
 					w = nil
